@@ -173,7 +173,7 @@ theorem step_error_ne_timeout (c : Config) (hf : stepFlags m pm c = []) :
   | step e ctx p =>
     cases e with
     | nil => simp [runStep]
-    | int v => simp only [runStep]; split <;> simp
+    | int v => simp only [runStep]; split <;> (try split) <;> simp
     | atom b => simp [runStep]
     | qstr q b => simp [runStep]
     | cons a b =>
@@ -390,5 +390,96 @@ theorem noFuelOps_chia : NoFuelOps Ops.chiaOps := by
   all_goals first | (simp [failR]; done) | skip
   all_goals (dsimp only; repeat' split)
   all_goals first | (simp [failR]; done) | skip
+
+-- ---------------------------------------------------------------------------------------
+-- paths never raise a flag; refused operator atoms never have a consensus value
+-- ---------------------------------------------------------------------------------------
+
+/-- a program that is a path never takes a flagged branch:
+    at most three steps, [Atom → Integer →] OpResult → Done. -/
+theorem path_unflagged (hr : Rich → Rich → Except RunErr Rich) (m : Mode) (pm : PrimMap) (ops : OpSem)
+    (p e : Rich) (hp : ∀ a b, p ≠ .cons a b) : ∀ lim, flagsOf hr m pm ops lim p e = [] := by
+  intro lim
+  unfold flagsOf start
+  have fin : ∀ (n : Nat) (r q : Rich),
+      (runLoopF (runStep hr m pm ops) (stepFlags m pm) n (.opResult r (.step q e (.done p))) []).2 = [] := by
+    intro n r q
+    cases n with
+    | zero => rfl
+    | succ n => simp [runLoopF, runStep, combineDone, stepFlags]
+  have intCase : ∀ (n : Nat) (v : Int),
+      (runLoopF (runStep hr m pm ops) (stepFlags m pm) n (.step (.int v) e (.done p)) []).2 = [] := by
+    intro n v
+    cases n with
+    | zero => rfl
+    | succ n =>
+      by_cases hz : flattenSignedInt v = 0
+      · simp only [runLoopF, runStep, if_pos hz, stepFlags, List.append_nil]
+        exact fin n .nil (.int v)
+      · cases hcp : choosePath (flattenSignedInt v) e with
+        | none => simp [runLoopF, runStep, hz, hcp, stepFlags]
+        | some r =>
+          simp only [runLoopF, runStep, if_neg hz, hcp, stepFlags, List.append_nil]
+          exact fin n r (.int v)
+  cases p with
+  | cons a b => exact absurd rfl (hp a b)
+  | nil =>
+    cases lim with
+    | zero => rfl
+    | succ n =>
+      simp only [runLoopF, runStep, stepFlags, List.append_nil]
+      exact fin n .nil .nil
+  | int v => exact intCase lim v
+  | atom b =>
+    cases lim with
+    | zero => rfl
+    | succ n =>
+      simp only [runLoopF, runStep, stepFlags, List.append_nil]
+      exact intCase n _
+  | qstr q b =>
+    cases lim with
+    | zero => rfl
+    | succ n =>
+      simp only [runLoopF, runStep, stepFlags, List.append_nil]
+      exact intCase n _
+
+theorem smallNumber_noncanonical {v : Bytes} (h : Bytes.canonical v = false) : Ops.smallNumber v = none := by
+  simp [Ops.smallNumber, h]
+
+/-- an operator atom that is not the minimal encoding of its value, under an operator table that
+    refuses it: the consensus evaluator never returns a value. -/
+theorem refused_no_value (ops : OpSem) (v : Bytes) (hcan : Bytes.canonical v = false)
+    (hstrict : ∀ args, ∃ t, ops.apply v args = .error (.fail t)) (args env w : Val) :
+    ¬ Clvm.Evaluates ops (.pair (.atom v) args) env w := by
+  rintro ⟨n, hn⟩
+  have hs := smallNumber_noncanonical hcan
+  cases n with
+  | zero => simp [Clvm.evalC] at hn
+  | succ n =>
+    simp only [Clvm.evalC, hs] at hn
+    rw [if_neg (by simp)] at hn
+    cases ha : Clvm.evalArgsC ops n args env with
+    | error e => rw [ha] at hn; cases hn
+    | ok vals =>
+      rw [ha] at hn
+      cases n with
+      | zero => simp [Clvm.applyC] at hn
+      | succ n =>
+        obtain ⟨t, ht⟩ := hstrict vals
+        simp [Clvm.applyC, hs, ht] at hn
+
+/-- clvmr's strict Chia dialect refuses every operator atom that is not minimally encoded. -/
+theorem chia_refuses_noncanonical (v : Bytes) (hcan : Bytes.canonical v = false) (args : Val) :
+    ∃ t, Ops.chiaOps.apply v args = .error (.fail t) := by
+  have hs := smallNumber_noncanonical hcan
+  show ∃ t, Ops.chiaApply v args = _
+  unfold Ops.chiaApply
+  split
+  · exact ⟨_, rfl⟩
+  · split
+    · exact ⟨_, rfl⟩
+    · split
+      · exact ⟨_, rfl⟩
+      · rw [hs]; exact ⟨_, rfl⟩
 
 end StepLemmas
